@@ -122,13 +122,87 @@ def run_case(case, td):
     return res
 
 
+def run_c_callable_case(case, td):
+    """an interrupt signal while the device's write_bit is a C-implemented callable (a bounded deque's append: it runs no
+    bytecode, so only the engine itself can notice the pending signal).  The run happens in a forked child that is
+    killed after a hard limit: a run that never stops is the observation 'hang'."""
+    import collections
+    import select
+    import time
+    res = {'outcome': 'inconclusive', 'attempts': 0}
+    for delay in (0.15, 0.4, 1.0):
+        res['attempts'] += 1
+        rfd, wfd = os.pipe()
+        pid = os.fork()
+        if pid == 0:
+            os.close(rfd)
+            out = {}
+            try:
+                path = Path(td) / 'cc.fjm'
+                write_fjm(path, case)
+                for k in ('FLIPJUMP_NO_NATIVE', 'FLIPJUMP_NO_FLAT', 'FLIPJUMP_MEASURE_SPECULATION'):
+                    os.environ.pop(k, None)
+                kwargs = {}
+                if case['engine'] == 'featured':
+                    kwargs['profile'] = True
+                elif case['engine'] == 'fast':
+                    os.environ['FLIPJUMP_NO_NATIVE'] = '1'
+                elif case.get('no_flat'):
+                    os.environ['FLIPJUMP_NO_FLAT'] = '1'
+                if case.get('last_ops') is not None:
+                    kwargs['last_ops_debugging_list_length'] = case['last_ops']
+                dev = FixedIO(b'')
+                dev.write_bit = collections.deque(maxlen=64).append
+                signal.signal(signal.SIGALRM, _alarm)
+                signal.setitimer(signal.ITIMER_REAL, delay)
+                try:
+                    st = fjm_run.run(path, io_device=dev, **kwargs)
+                    out = {'outcome': 'stats', 'cause': int(st.termination_cause), 'ops': st.op_counter,
+                           'last_ops_len': len(st.last_ops_addresses) if st.last_ops_addresses is not None else None}
+                except BaseException as e:  # noqa
+                    out = {'outcome': 'raised:' + type(e).__name__}
+            except BaseException as e:  # noqa
+                out = {'outcome': 'harness:' + type(e).__name__ + ':' + str(e)[:80]}
+            try:
+                os.write(wfd, json.dumps(out).encode())
+            finally:
+                os._exit(0)
+        os.close(wfd)
+        t0 = time.time()
+        ready, _, _ = select.select([rfd], [], [], case.get('hard_timeout', 8.0) + delay)
+        if not ready:
+            os.kill(pid, signal.SIGKILL)
+            os.waitpid(pid, 0)
+            os.close(rfd)
+            return {'outcome': 'hang', 'delay': delay, 'waited': round(time.time() - t0, 2), 'attempts': res['attempts']}
+        data = b''
+        while True:
+            chunk = os.read(rfd, 65536)
+            if not chunk:
+                break
+            data += chunk
+        os.close(rfd)
+        os.waitpid(pid, 0)
+        try:
+            out = json.loads(data.decode())
+        except ValueError:
+            out = {'outcome': 'child-died'}
+        out['delay'] = delay
+        out['attempts'] = res['attempts']
+        if out['outcome'] == 'raised:KeyboardInterrupt' or (out['outcome'] == 'stats' and out.get('ops', 0) == 0):
+            res = dict(out, outcome='inconclusive')      # the signal arrived before the run loop: try a later instant
+            continue
+        return out
+    return res
+
+
 def main():
     signal.signal(signal.SIGALRM, _alarm)
     cases = json.loads(Path(sys.argv[1]).read_text())
     out = []
     with tempfile.TemporaryDirectory(dir=os.getcwd()) as td:
         for c in cases:
-            out.append(run_case(c, td))
+            out.append(run_c_callable_case(c, td) if c.get('kind') == 'c_callable' else run_case(c, td))
     Path(sys.argv[2]).write_text(json.dumps(out))
 
 
